@@ -3,8 +3,8 @@ C15 - DHT values are stored only for authorised writers and read back authentic.
 
 Part W (write side, protocol level). A target node T (``DHTCommunity`` or ``DHTDiscoveryCommunity``) and four
 requester endpoints (three pool keys, one of them living at two addresses) are real community instances on
-``pv.nodes.Node`` under ``pv.vloop``; every packet is packed and signed by production code. A Hypothesis-drawn op
-list (find / store / store_peer / rotate / advance / maintain / grow / lookup) is interpreted inside one
+``pv.nodes.Node`` under ``pv.vloop``; every packet is packed and signed by production code. An op list (find / store / store_peer /
+rotate / advance / maintain / grow / lookup; expanded from Hypothesis-drawn parameters) is interpreted inside one
 ``vloop.run``. The oracle never asks T whether a token is good: it records the tokens T hands out in its
 find-responses (parsed from the wire with ``struct``), counts T's secret rotations (the periodic task is re-registered
 through a counting shim with the same period) and applies the statement: *valid iff issued to the same key and the
@@ -52,7 +52,10 @@ LEVEL = "exploration"
 EXHAUSTIVE = False
 RULE = ("W: target T in {DHTCommunity, DHTDiscoveryCommunity} + 4 requester endpoints (keys k0..k2; k0 at two "
         "addresses; any (key, source address) combination can be produced by injecting a really signed packet from "
-        "another endpoint's address) + an observer; Hypothesis op lists up to 40 (quick) / 70 (thorough) ops: "
+        "another endpoint's address) + an observer; op lists of 3..40 (quick) / 3..70 (thorough) ops expanded by a "
+        "seeded PRNG from Hypothesis-drawn (seed, length, variant, warm-up, initial table size), optionally opened by "
+        "0-2 short directed scenarios (own-key refresh, table growth between two stores at a far key, version race, "
+        "token carried across rotations); the recorded case is the explicit op list (greedily minimised on failure): "
         "find(identity, key, force_nodes); store(identity, token class in {fresh, previous epoch, older, other key, "
         "other key at same address, same key at other address, random}, key in {T's node id, its complement, "
         "sha1(pk of signer 0), constant}, 0..10 values from {unsigned of length 0/1/5/169(=170 bytes)/170(=171), "
@@ -65,7 +68,7 @@ RULE = ("W: target T in {DHTCommunity, DHTDiscoveryCommunity} + 4 requester endp
         "key holding entries with different lifetimes / a maintenance run over a key with both expired and live "
         "entries. R: 1..4 servers x up to 10 stored byte strings each (see module docstring); non-trivial = some "
         "signer offered in >= 2 versions or a forged/undecodable value offered next to an authentic one. M: words "
-        "over a 12-letter alphabet to depth 4 (quick) / 5 (thorough) + Hypothesis words up to 40 ops over 2 keys, 4 "
+        "over a 12-letter alphabet to depth 5 (quick) / 6 (thorough) + Hypothesis words up to 40 ops over 2 keys, 4 "
         "ids (one equal to the key), versions 0..3, lifetimes {0,10,100,1000}; non-trivial = clean ran over a key "
         "with both expired and live values, or a put met an existing id. distinct = digest of the case.")
 ASSUMPTIONS = [
@@ -1196,20 +1199,22 @@ async def storage_case(case: dict, info: dict | None = None) -> None:
                     info["mixed"] = True
             st.clean()
             for ki in range(len(M_KEYS)):
-                got = observe(ki)
+                # by id (two ids may carry equal data); the multiset returned by get() is compared below
+                got_ids = {bytes(v.id) for v in st.items.get(M_KEYS[ki], [])}
                 for k in sorted(k for k in model if k[0] == ki):
                     e = model[k]
-                    if ages[k] > e["age"] + EPS and e["data"] in got:
+                    if ages[k] > e["age"] + EPS and k[1] in got_ids:
                         fail("S5", "Storage.clean", f"after clean() key{ki} still holds {e['data']!r} of age "
                                                     f"{ages[k]:.1f} s, lifetime {e['age']} s; all entries: "
                                                     f"{[(m['data'], round(ages[kk], 1), m['age']) for kk, m in model.items() if kk[0] == ki]}")
-                    if ages[k] < e["age"] - EPS and e["data"] not in got:
+                    if ages[k] < e["age"] - EPS and k[1] not in got_ids:
                         fail("S2", "Storage.clean:live_removed", f"clean() removed {e['data']!r} of age {ages[k]:.1f} s, "
                                                                  f"lifetime {e['age']} s")
             for k in list(model):
                 if ages[k] > model[k]["age"] + EPS:
                     del model[k]
-                elif ages[k] >= model[k]["age"] - EPS and model[k]["data"] not in observe(k[0]):
+                elif ages[k] >= model[k]["age"] - EPS and k[1] not in {bytes(v.id) for v in
+                                                                        st.items.get(M_KEYS[k[0]], [])}:
                     del model[k]
             check_all("Storage.clean")
         elif kind == "adv":
@@ -1493,17 +1498,21 @@ def _storage_strategy():
 
 def _shard(ctx: Ctx, shard: int, nshards: int, n_write: int, n_read: int, n_storage: int, max_ops: int,
            depth: int) -> None:
-    _exhaustive_storage(ctx, shard, nshards, depth)
-    hyp_run(ctx, "storage", _storage_strategy(), lambda c: storage_hyp_case(ctx, c), n_storage)
-    hyp_run(ctx, "read", _read_strategy(), lambda c: read_case(ctx, c), n_read)
+    slots = ctx.sample_slots
+    ctx.sample_slots = 2          # evidence samples: two of each part instead of six of whichever runs first
     hyp_run(ctx, "write", _write_strategy(max_ops), lambda c: write_body(ctx, c), n_write, shrink_examples=6)
+    ctx.sample_slots = 4
+    hyp_run(ctx, "read", _read_strategy(), lambda c: read_case(ctx, c), n_read)
+    ctx.sample_slots = slots
+    hyp_run(ctx, "storage", _storage_strategy(), lambda c: storage_hyp_case(ctx, c), n_storage)
+    _exhaustive_storage(ctx, shard, nshards, depth)
 
 
 def run(ctx: Ctx) -> None:
     if ctx.quick:
         shard_run(ctx, _shard, extra=(48, 120, 300, 40, 5))
     else:
-        shard_run(ctx, _shard, extra=(900, 1500, 5000, 70, 6))
+        shard_run(ctx, _shard, extra=(600, 1500, 5000, 70, 6))
 
 
 def replay(ctx: Ctx, case: dict) -> None:
